@@ -386,6 +386,12 @@ func init() {
 		"net.JoinHostPort": func(fr *Frame, ins ssa.Instruction, a []*Val, rs *Sort) *Val {
 			return &Val{T: "(joinHostPort " + a[0].T + " " + a[1].T + ")", S: SString}
 		},
+		"net.SplitHostPort": func(fr *Frame, ins ssa.Instruction, a []*Val, rs *Sort) *Val {
+			// host and port of "host:port"; the printed form of a socket address always splits
+			errv := fr.havocVal("shperr", SAny)
+			fr.ex.vc.assume(imp("(isSockAddr "+a[0].T+")", eq(errv.T, "anyNil")))
+			return tuple(fr.havocVal("host", SString), fr.havocVal("port", SString), errv)
+		},
 		"net.ResolveUDPAddr": func(fr *Frame, ins ssa.Instruction, a []*Val, rs *Sort) *Val {
 			return fr.resolveAddr(a[1], "net_UDPAddr")
 		},
